@@ -237,7 +237,7 @@ Proof.
     { constructor; [ | constructor ]. destruct R as [Z | (q & -> & Q1 & Q2 & Q3 & Q4 & Q5)]; [ left; exact Z | right ].
       exists q. psimpl. splits; fin. }
     assert (Hgoal : inv w1 /\ same_bounds w w1 /\ allocFailed w1 = false /\ c + pad_due w1 <= available_space w1 /\
-                    Forall (in_free w) [(r, align_up n ALIGN)] /\ (ph w = PhObjects -> false = false -> ph w1 = PhObjects)).
+                    Forall (in_free w) [(r, align_up n ALIGN)] /\ (ph w = PhObjects -> true = false -> ph w1 = PhObjects)).
     { unfold pad_due. destruct (N.eqb_spec (phase_rank (ph w1)) 0); [ contradiction | ].
       splits; try assumption; try lia; try (intros _ E; discriminate). }
     destruct r as [p | ]; [ | exact Hgoal ].
@@ -268,7 +268,7 @@ Proof.
     unfold clear, inv, same_bounds, available_space, pad_due, initialAllocStart in *; psimpl.
     destruct (N.ltb_spec 1 (phase_rank (ph w))) as [L | L]; psimpl.
     + destruct (N.eqb_spec (phase_rank (ph w)) 0); [ lia | ].
-      splits; fin; try constructor. intros E; discriminate.
+      change (1 =? 0) with false. cbv iota. splits; fin; try constructor.
     + destruct (N.eqb_spec (phase_rank (ph w)) 0); splits; fin; try constructor.
   - (* clear tables *)
     destruct I as (J1 & J2 & J3 & J4 & J5 & J6).
@@ -297,7 +297,7 @@ Lemma run_ok rz : forall ops w b,
   inv w' /\ same_bounds w w' /\ allocFailed w' = false /\ Forall (entry_ok w) log.
 Proof.
   induction ops as [ | o rest IH]; intros w b I AF HB WF HC; cbn [run].
-  - repeat split; try assumption; constructor.
+  - splits; try assumption; try constructor; reflexivity.
   - cbn [ops_cost wf_ops] in *.
     pose proof (step_ok rz w o (ops_cost rz rest) I AF) as HS.
     destruct (step rz w o) as [w1 l1].
@@ -307,18 +307,152 @@ Proof.
     assert (exists b1, (b1 = true -> ph w1 = PhObjects) /\ wf_ops b1 rest = true) as (b1 & HB1 & WF1).
     { destruct (is_object o) eqn:Eo.
       - apply andb_true_iff in WF. destruct WF as [W1 W2]. exists b. split; [ | exact W2 ].
-        intros _. apply PK; [ exact (HB W1) | ]. rewrite Eo. apply andb_false_r.
+        intros _. apply PK; [ exact (HB W1) | ]. apply andb_false_r.
       - destruct (is_reserve o) eqn:Er.
         + exists false. split; [ discriminate | exact WF ].
         + exists b. split; [ | exact WF ]. intros Hb. apply PK; [ exact (HB Hb) | reflexivity ]. }
     specialize (IH w1 b1 I1 AF1 HB1 WF1 C1).
     destruct (run rz w1 rest) as [w2 l2].
     destruct IH as (I2 & SB2 & AF2 & L2).
-    repeat split; try assumption.
-    + destruct SB1, SB2; congruence.
-    + destruct SB1, SB2; congruence.
+    splits; try assumption.
+    + destruct SB1, SB2; split; congruence.
     + apply Forall_app. split.
       * eapply Forall_impl; [ | exact L1 ]. intros e He. eapply entry_ok_of_free; [ | exact I | exact He ]. split; reflexivity.
       * eapply Forall_impl; [ | exact L2 ]. intros e [Z | (p & E1 & E2 & E3)]; [ left; exact Z | right ].
         exists p. destruct SB1 as [S1 S2]. rewrite <- S1, <- S2. repeat split; assumption.
+Qed.
+
+(* fit from a fresh workspace: 126 spare bytes (two alignment pads of at most 63) always suffice *)
+Theorem cwksp_fit rz start size st ops :
+  wf_ops true ops = true ->
+  ops_cost rz ops + 126 <= size ->
+  let w0 := init start size st in
+  let '(w', log) := run rz w0 ops in
+  allocFailed w' = false /\ same_bounds w0 w' /\ Forall (entry_ok w0) log.
+Proof.
+  intros WF HC w0.
+  assert (Hs : 63 <= size) by lia.
+  pose proof (inv_init start size st Hs) as I.
+  destruct (init_free start size st Hs) as (F1 & F2 & F3 & F4 & F5 & F6). fold w0 in F1, F2, F3, F4, F5, F6, I.
+  pose proof (run_ok rz ops w0 true I F5 (fun _ => F4) WF) as H.
+  destruct (run rz w0 ops) as [w' log].
+  destruct H as (I' & SB & AF & L).
+  { unfold pad_due. rewrite F4. cbn [phase_rank N.eqb]. lia. }
+  splits; assumption.
+Qed.
+
+(* ------------------------------------------------------------------ *)
+(* safety without any budget: whatever is requested, from whatever state the bump pointers are in,
+   a returned pointer always designates bytes inside [workspace, workspaceEnd); the bounds never move. *)
+
+Definition safe_inv (w : cwksp) : Prop :=
+  ws_start w <= objectEnd w /\ objectEnd w <= tableEnd w /\ tableEnd w <= ws_end w /\ allocStart w <= ws_end w.
+
+Definition entry_safe (w : cwksp) (e : entry) : Prop :=
+  fst e = None \/ exists p, fst e = Some p /\ ws_start w <= p /\ p + snd e <= ws_end w.
+
+Lemma safe_inv_init start size st : safe_inv (init start size st).
+Proof. unfold safe_inv, init, clear, set_initOnce, initialAllocStart; psimpl. splits; lia. Qed.
+
+Lemma advance_phase_safe w p :
+  safe_inv w -> let '(w', ok) := advance_phase w p in safe_inv w' /\ same_bounds w w'.
+Proof.
+  intros (S1 & S2 & S3 & S4). unfold advance_phase.
+  destruct (phase_rank (ph w) <? phase_rank p); [ | unfold safe_inv, same_bounds; splits; fin ].
+  destruct ((phase_rank (ph w) <? 1) && (1 <=? phase_rank p)).
+  - destruct (N.ltb_spec (ws_end w) (objectEnd w + bytes_to_align (objectEnd w) ALIGN));
+    unfold safe_inv, same_bounds, set_initOnce, set_tableValidEnd; psimpl; splits; fin.
+  - unfold safe_inv, same_bounds, set_phase; psimpl; splits; fin.
+Qed.
+
+Lemma reserve_internal_safe rz w bytes p :
+  safe_inv w -> let '(w', r) := reserve_internal rz w bytes p in
+  safe_inv w' /\ same_bounds w w' /\ entry_safe w (r, bytes).
+Proof.
+  intros S. unfold reserve_internal.
+  pose proof (advance_phase_safe w p S) as HA. destruct (advance_phase w p) as [w1 ok].
+  destruct HA as ((S1 & S2 & S3 & S4) & [B1 B2]).
+  destruct (negb ok || (bytes =? 0)).
+  - splits; try assumption; try (unfold safe_inv; splits; assumption). left; reflexivity.
+  - unfold reserve_internal_buffer_space.
+    destruct (N.ltb_spec (allocStart w1) (tableEnd w1 + (bytes + 2 * rz))).
+    + unfold safe_inv, same_bounds, set_failed; psimpl. splits; fin. left; reflexivity.
+    + unfold safe_inv, same_bounds, set_alloc, entry_safe; psimpl. splits; fin.
+      right. exists (allocStart w1 - (bytes + 2 * rz) + rz). splits; fin.
+Qed.
+
+Lemma step_safe rz w o :
+  safe_inv w -> let '(w', l) := step rz w o in
+  safe_inv w' /\ same_bounds w w' /\ Forall (entry_safe w) l.
+Proof.
+  intros S. destruct o; cbn [step].
+  - (* object *)
+    destruct S as (S1 & S2 & S3 & S4). unfold reserve_object.
+    pose proof (align_up_ge n 8 ltac:(lia)).
+    destruct (negb (phase_rank (ph w) =? 0)); cbn [orb].
+    + unfold safe_inv, same_bounds, set_failed; psimpl. splits; fin. constructor; [ left; reflexivity | constructor ].
+    + destruct (N.ltb_spec (ws_end w) (objectEnd w + align_up n 8 + 2 * rz)).
+      * unfold safe_inv, same_bounds, set_failed; psimpl. splits; fin. constructor; [ left; reflexivity | constructor ].
+      * unfold safe_inv, same_bounds; psimpl. splits; fin.
+        constructor; [ | constructor ]. right. exists (objectEnd w + rz). psimpl. splits; fin.
+  - (* table *)
+    unfold reserve_table.
+    assert (HA : let '(w1, ok) := if phase_rank (ph w) <? 1 then advance_phase w PhInitOnce else (w, true) in
+                 safe_inv w1 /\ same_bounds w w1).
+    { destruct (phase_rank (ph w) <? 1); [ apply advance_phase_safe; exact S | ].
+      split; [ exact S | split; reflexivity ]. }
+    destruct (if phase_rank (ph w) <? 1 then advance_phase w PhInitOnce else (w, true)) as [w1 ok].
+    destruct HA as ((S1 & S2 & S3 & S4) & [B1 B2]).
+    destruct (negb ok).
+    + splits; try (unfold safe_inv; splits; assumption); try assumption.
+      constructor; [ left; reflexivity | constructor ].
+    + destruct (N.ltb_spec (allocStart w1) (tableEnd w1 + n)).
+      * unfold safe_inv, same_bounds, set_failed; psimpl. splits; fin. constructor; [ left; reflexivity | constructor ].
+      * unfold safe_inv, same_bounds, set_tableEnd; psimpl. splits; fin.
+        constructor; [ | constructor ]. right. exists (tableEnd w1). psimpl. splits; fin.
+  - (* init once *)
+    unfold reserve_aligned_init_once.
+    pose proof (reserve_internal_safe rz w (align_up n ALIGN) PhInitOnce S) as H.
+    destruct (reserve_internal rz w (align_up n ALIGN) PhInitOnce) as [w1 r].
+    destruct H as (S' & SB & E).
+    destruct r as [p | ].
+    + destruct (p <? initOnceStart w1).
+      * unfold safe_inv, same_bounds, set_initOnce in *; psimpl. splits; try apply S'; try apply SB.
+        constructor; [ exact E | constructor ].
+      * splits; try assumption. constructor; [ exact E | constructor ].
+    + splits; try assumption. constructor; [ exact E | constructor ].
+  - (* aligned *)
+    unfold reserve_aligned.
+    pose proof (reserve_internal_safe rz w (align_up n ALIGN) PhAligned S) as H.
+    destruct (reserve_internal rz w (align_up n ALIGN) PhAligned) as [w1 r].
+    destruct H as (S' & SB & E). splits; try assumption. constructor; [ exact E | constructor ].
+  - (* buffer *)
+    unfold reserve_buffer.
+    pose proof (reserve_internal_safe rz w n PhBuffers S) as H.
+    destruct (reserve_internal rz w n PhBuffers) as [w1 r].
+    destruct H as (S' & SB & E). splits; try assumption. constructor; [ exact E | constructor ].
+  - destruct S as (S1 & S2 & S3 & S4).
+    unfold clear, safe_inv, same_bounds, initialAllocStart; psimpl. splits; fin. constructor.
+  - destruct S as (S1 & S2 & S3 & S4).
+    unfold clear_tables, set_tableEnd, safe_inv, same_bounds; psimpl. splits; fin. constructor.
+  - destruct S as (S1 & S2 & S3 & S4).
+    unfold mark_tables_dirty, set_tableValidEnd, safe_inv, same_bounds; psimpl. splits; fin. constructor.
+  - destruct S as (S1 & S2 & S3 & S4).
+    unfold mark_tables_clean. destruct (tableValidEnd w <? tableEnd w);
+    unfold set_tableValidEnd, safe_inv, same_bounds; psimpl; splits; fin; constructor.
+Qed.
+
+Theorem run_safe rz : forall ops w,
+  safe_inv w -> let '(w', log) := run rz w ops in
+  safe_inv w' /\ same_bounds w w' /\ Forall (entry_safe w) log.
+Proof.
+  induction ops as [ | o rest IH]; intros w S; cbn [run].
+  - splits; try assumption; try reflexivity. constructor.
+  - pose proof (step_safe rz w o S) as H1. destruct (step rz w o) as [w1 l1].
+    destruct H1 as (S1 & [B1 B2] & L1).
+    specialize (IH w1 S1). destruct (run rz w1 rest) as [w2 l2]. destruct IH as (S2 & [C1 C2] & L2).
+    splits; try assumption; try congruence.
+    apply Forall_app. split; [ exact L1 | ].
+    eapply Forall_impl; [ | exact L2 ]. intros e [Z | (p & E1 & E2 & E3)]; [ left; exact Z | right ].
+    exists p. rewrite <- B1, <- B2. splits; assumption.
 Qed.
